@@ -1,5 +1,6 @@
 """C20-O2: SKIP / LIMIT window arithmetic — the row-window expression yields exactly the non-negative integer it evaluates to
-(no clamping, no wrap), anything else is an error; execute_skip / execute_limit hand exactly that number to Iterator::skip / take."""
+(no clamping, no wrap), anything else is an error; execute_limit hands exactly that number to Iterator::take (execute_skip: see skip.py,
+which decides the surviving items for either adaptor shape instead of demanding one particular std adaptor)."""
 import re
 
 import z3
@@ -135,6 +136,5 @@ def run_adaptor(fname, adaptor):
 
 TARGETS = [
     {"name": "c20_o2_q_row_window_expression", "crate": "nervusdb-query", "run": run_window},
-    {"name": "c20_o2_q_execute_skip_passes_window", "crate": "nervusdb-query", "run": run_adaptor("execute_skip", "skip")},
     {"name": "c20_o2_q_execute_limit_passes_window", "crate": "nervusdb-query", "run": run_adaptor("execute_limit", "take")},
 ]
